@@ -41,6 +41,11 @@ def pool_cases():
     out.append(("str(tricky)", str, list(TRICKY_STR)))
     out.append(("list[str](tricky)", list[str], [list(TRICKY_STR)]))
     out.append(("dict[str,str](tricky)", dict[str, str], [{s: s for s in TRICKY_STR}]))
+    # literals holding a text and the value that text decodes to (the text member must come back as text)
+    out.append(("Literal[1,'1']", typing.Literal[1, "1"], ["1", 1]))
+    out.append(("Literal[None,'null']", typing.Literal[None, "null"], ["null", None]))
+    out.append(("Literal[True,'true']", typing.Literal[True, "true"], ["true", True]))
+    out.append(("Literal['7',7]", typing.Literal["7", 7], ["7", 7]))
     return out
 
 
@@ -112,8 +117,46 @@ def cases(tier="quick", seed=0):
     return out
 
 
+@dataclasses.dataclass
+class Small:
+    x: int
+
+
+@dataclasses.dataclass
+class Big:
+    x: int
+    y: int
+
+
+SEQUENCES = {
+    "tuple3|tuple2": (typing.Union[tuple[int, int, int], tuple[int, int]], [(1, 2), (1, 2, 3), (4, 5), (6, 7, 8)]),
+    "Big|Small": (typing.Union[Big, Small], [Small(1), Big(1, 2), Small(3), Big(4, 5)]),
+    "list[Big|Small]": (list[typing.Union[Big, Small]], [[Small(1), Big(1, 2), Small(2)], [Big(3, 4)]]),
+}
+
+
+def run_sequence(name):
+    """one routine, several values in a row (no cache clearing in between): each must round-trip on its own"""
+    with warnings.catch_warnings():
+        warnings.simplefilter("ignore")
+        clear_typelib_caches()
+        T, values = SEQUENCES[name]
+        for v in values:
+            r = check_one(T, v)
+            if r:
+                return f"{T!r} after {values[:values.index(v)]!r}: {r}"[:500]
+    return None
+
+
 def search(tier="quick", seed=0, stop_at=1):
     fails, n = [], 0
+    for name in SEQUENCES:
+        n += 1
+        r = run_sequence(name)
+        if r:
+            fails.append({"case": {"sequence": name}, "violation": r})
+            if len(fails) >= stop_at:
+                return fails, n
     for case in cases(tier, seed):
         n += 1
         r = run_case(case)
@@ -125,4 +168,6 @@ def search(tier="quick", seed=0, stop_at=1):
 
 
 def run_recorded(rec):
+    if "sequence" in rec["case"]:
+        return run_sequence(rec["case"]["sequence"])
     return run_case(rec["case"])
